@@ -193,12 +193,46 @@ func checkCase(c joinCase) evid.Outcome {
 		// receive path: the frame as decoded from the wire validates against the specification MIC
 		g := c.F
 		g.MIC = want
-		var q lorawan.PHYPayload
-		if err := q.UnmarshalBinary(g.Encode()); err != nil {
+		// half of the cases receive in a loop: one variable, the decoded value kept by value, the variable decodes the next frame
+		loop := want[0]&1 == 1
+		q, err := gen.Receive(g.Encode(), loop)
+		if err != nil {
 			return evid.Fail("UnmarshalBinary(%x): %v", g.Encode(), err)
 		}
 		if ok, err := q.ValidateUplinkJoinMIC(gen.LibKey(toKey(c.Key))); err != nil || !ok {
-			return evid.Fail("the frame %x decoded from the wire carries the specification MIC %x but ValidateUplinkJoinMIC answers %v (err %v)", g.Encode(), want[:], ok, err)
+			return evid.Fail("the frame %x decoded from the wire (in a receive loop, the value kept while its variable decoded the next frame: %v) carries the specification MIC %x but ValidateUplinkJoinMIC answers %v (err %v)", g.Encode(), loop, want[:], ok, err)
+		}
+	}
+	// a history on ONE frame value: refused validations (another key; other candidate request parameters) come first,
+	// then the right parameters - which must still be accepted, on a frame that still serialises to the same bytes
+	{
+		h, err := libSet(&c)
+		if err != nil {
+			return evid.Fail("Set*JoinMIC fails on a valid frame: %v", err)
+		}
+		before, berr := h.MarshalBinary()
+		otherKey := toKey(c.Key)
+		otherKey[int(c.DevNonce)%16] ^= 0x40
+		validate := func(k ref.Key, rt byte, nonce uint16) (bool, error) {
+			if c.F.MType == ref.MTJoinAccept {
+				return h.ValidateDownlinkJoinMIC(lorawan.JoinType(rt), gen.EUI(c.JoinEUI), lorawan.DevNonce(nonce), gen.LibKey(k))
+			}
+			return h.ValidateUplinkJoinMIC(gen.LibKey(k))
+		}
+		dk := c
+		dk.Key = append(evid.Hex{}, otherKey[:]...)
+		if ok, _ := validate(otherKey, c.ReqType, c.DevNonce); ok != (refMIC(&dk) == want) {
+			return evid.Fail("Validate*JoinMIC answers %v for the MIC %x under another key (%x), the specification MIC under that key is %x", ok, want[:], otherKey[:], refMIC(&dk))
+		}
+		if c.F.MType == ref.MTJoinAccept && c.F.OptNeg {
+			_, _ = validate(toKey(c.Key), []byte{0xff, 0, 1, 2}[(indexOf(c.ReqType)+1)%4], c.DevNonce)
+			_, _ = validate(toKey(c.Key), c.ReqType, c.DevNonce^1)
+		}
+		if ok, err := validate(toKey(c.Key), c.ReqType, c.DevNonce); err != nil || !ok {
+			return evid.Fail("Validate*JoinMIC on a frame carrying the specification MIC %x answers %v (err %v) after validations with another key / other request parameters were refused on the same frame value: a refused call changed the frame", want[:], ok, err)
+		}
+		if after, aerr := h.MarshalBinary(); berr != nil || aerr != nil || !bytes.Equal(before, after) {
+			return evid.Fail("the frame serialised to %x (err %v) before and to %x (err %v) after a history of refused and accepted MIC validations", before, berr, after, aerr)
 		}
 	}
 	for bit := 0; bit < 32; bit += 7 {
@@ -274,8 +308,8 @@ func checkCase(c joinCase) evid.Outcome {
 				return evid.Fail("join-accept with MIC field %x encrypts to %x (err %v), specification gives %x", mic[:], rb, err, exp)
 			}
 		}
-		var q lorawan.PHYPayload
-		if err := q.UnmarshalBinary(air); err != nil {
+		q, err := gen.Receive(air, air[len(air)-1]&1 == 1)
+		if err != nil {
 			return evid.Fail("UnmarshalBinary of the encrypted join-accept: %v", err)
 		}
 		if err := q.DecryptJoinAcceptPayload(gen.LibKey(ek)); err != nil {
@@ -339,6 +373,6 @@ func TestProp(t *testing.T) {
 	r := evid.Begin(t, "C04")
 	defer r.Finish()
 	evid.Rapid(r, t, "join-mic-and-encryption",
-		"rapid: join-requests, rejoin-requests type 0/1/2 and join-accepts (random 8-byte EUIs, boundary-biased nonces < 2^24, NetID, DevAddr, DLSettings with OptNeg both ways, RXDelay 0..15, CFList absent/channels/masks) x random keys x JoinReqType in {0xff,0,1,2} x JoinEUI x DevNonce. Oracle: own AES-CMAC over the wire model (1.0 form, or the 1.1 form prefixing JoinReqType|JoinEUI LE|DevNonce LE when OptNeg), AES-decrypt-ECB over payload|MIC from crypto/aes. Checks: Set == reference; Validate accepts exactly it; 3-8 single-input perturbations (key bit, JoinReqType, JoinEUI bit, DevNonce bit, any frame field, Major) where validation must answer exactly whether the reference MIC is unchanged (so the OptNeg inputs matter only with OptNeg); ciphertext byte-identical for the 16- and 32-byte forms; device-side AES-encrypt recovers payload|MIC; decode+decrypt restores payload and MIC; decrypting a copy leaves the encrypted frame intact and decrypting the same ciphertext twice gives the same result; arbitrary MIC field values (0, 1, all ones) encrypt per specification. Non-trivial: join/rejoin request, or join-accept with OptNeg or CFList.",
+		"rapid: join-requests, rejoin-requests type 0/1/2 and join-accepts (random 8-byte EUIs, boundary-biased nonces < 2^24, NetID, DevAddr, DLSettings with OptNeg both ways, RXDelay 0..15, CFList absent/channels/masks) x random keys x JoinReqType in {0xff,0,1,2} x JoinEUI x DevNonce. Oracle: own AES-CMAC over the wire model (1.0 form, or the 1.1 form prefixing JoinReqType|JoinEUI LE|DevNonce LE when OptNeg), AES-decrypt-ECB over payload|MIC from crypto/aes. Checks: Set == reference; Validate accepts exactly it, also on a frame received in a loop (decoded value kept while its variable decodes the next frame) and after validations with another key / other request parameters were refused on the same frame value (which leave its serialisation unchanged); 3-8 single-input perturbations (key bit, JoinReqType, JoinEUI bit, DevNonce bit, any frame field, Major) where validation must answer exactly whether the reference MIC is unchanged (so the OptNeg inputs matter only with OptNeg); ciphertext byte-identical for the 16- and 32-byte forms; device-side AES-encrypt recovers payload|MIC; decode+decrypt restores payload and MIC; decrypting a copy leaves the encrypted frame intact and decrypting the same ciphertext twice gives the same result; arbitrary MIC field values (0, 1, all ones) encrypt per specification. Non-trivial: join/rejoin request, or join-accept with OptNeg or CFList.",
 		150000, 3000000, genCase, checkCase)
 }
